@@ -71,6 +71,16 @@ class Ctx:
             self._known = set(json.load(open(path, encoding="utf-8"))["functions"])
         return self._known
 
+    @property
+    def known_classes(self) -> set:
+        if getattr(self, "_known_classes", None) is None:
+            import json
+            import os
+
+            path = os.path.join(os.path.dirname(os.path.abspath(__file__)), "known_functions.json")
+            self._known_classes = set(json.load(open(path, encoding="utf-8")).get("classes", []))
+        return self._known_classes
+
     def is_new(self, fn: FuncInfo) -> bool:
         return fn.key not in self.known_functions
 
